@@ -19,7 +19,7 @@ func (w *World) canonMapOrder(c *Cont) ([]int, error) {
 	ks := make([]kd, len(c.Keys))
 	for i, k := range c.Keys {
 		ks[i].i = i
-		if w.Digests != nil {
+		if w.Digests != nil && c.Table {
 			ks[i].d = w.Digests.digestsOf(keyNumber(k))
 			continue
 		}
@@ -470,7 +470,7 @@ func (w *World) checkLoadedSubset(c *Cont, sub []atree.SlabID, all bool) error {
 	tmp := &World{T: w.T, Ledger: w.Ledger, St: st, Digests: w.Digests, KeyOf: w.KeyOf}
 	what := fmt.Sprintf("c%d loaded-value iteration with %d of the non-root slabs loaded", c.Serial, len(sub))
 	if c.IsMap {
-		m, err := atree.NewMapWithRootID(st, c.SID, w.digesterBuilder())
+		m, err := atree.NewMapWithRootID(st, c.SID, w.builderFor(c))
 		if err != nil {
 			return violf("%s: open: %v", what, err)
 		}
